@@ -228,19 +228,30 @@ def _is_zero(t):
 
 # ---- (c) halving the end-use efficiency doubles LCOH ---------------------------------------------------------
 def run_efficiency(cfg, tier):
+    # costs pinned by the user, and costs from the built-in correlations (which read the extracted - not the delivered - heat)
+    for costs in ('pinned', 'correlated'):
+        yield from _run_efficiency(dict(cfg, costs=costs), tier)
+
+
+def _run_efficiency(cfg, tier):
     log = harness.UnitLog(cfg)
+    pinned = cfg['costs'] == 'pinned'
     pcfg = c02.plant_cfg('industrial-heat', 2, 9, cfg['L'], 2)
     N = cfg['L'] * 2
     spec = [(f'wellbores.ProducedTemperature[{i}]', 'real', 60, 400) for i in range(N)]
     spec += [(f'wellbores.PumpingPower[{i}]', 'real', 0, 100) for i in range(N)]
-    spec += [('surfaceplant.enduse_efficiency_factor', 'real', 0.2, 1), ('economics.totalcapcost', 'real', 0, 1000),
-             ('economics.oamtotalfixed', 'real', 0, 100), ('surfaceplant.electricity_cost_to_buy', 'real', 0, 1)]
+    spec += [('surfaceplant.enduse_efficiency_factor', 'real', 0.2, 1), ('surfaceplant.electricity_cost_to_buy', 'real', 0, 1)]
+    if pinned:
+        spec += [('economics.totalcapcost', 'real', 0, 1000), ('economics.oamtotalfixed', 'real', 0, 100)]
     em = cfg['em']
 
     def drive2(vals, symbolic):
         m = c04.prepared({'kind': 'direct-use', 'eu': 2, 'pt': 9, 'em': em, 'L': cfg['L'], 'K': 1, 'T': 2, 'carbon': False}).reset()
         v = dict(vals)
         v.update(c04.FIXED)
+        if not pinned:
+            v['economics.totalcapcost.Valid'] = False
+            v['economics.oamtotalfixed.Valid'] = False
         econ.install(m, v)
         if symbolic:
             with shim.shadow(*c02.plant_shadows()):
@@ -280,7 +291,7 @@ def run_efficiency(cfg, tier):
         for (c2, o2) in g:
             c2s, o2s = rel.substituted(c2, o2, sub)
             log['obligations'] += 1
-            r, mdl, dt = core.check_sat(assume + [eta / 2 >= core.rv(0.1), c1, c2s, z3.Not(o2s['LCOH'] == 2 * o1['LCOH'])], 30000)
+            r, mdl, dt = core.check_sat(assume + [eta / 2 >= core.rv(0.1), c1, c2s, z3.Not(o2s['LCOH'] == 2 * o1['LCOH'])], 30000 if pinned else 120000)
             log['solver_s'] += dt
             if r == 'unsat':
                 log['discharged'] += 1
